@@ -450,6 +450,9 @@ func run(c fw.Case, tier string, rec *fw.Recorder) {
 		if len(sampleOps) < 40 {
 			sampleOps = append(sampleOps, describe(b, results))
 		}
+		if len(findings) == 0 && (step == p.Len/2 || step == p.Len-1) {
+			genesisProbe(ch, m, users, rec, step)
+		}
 		if len(findings) > 0 {
 			state := map[string]any{}
 			for d, t := range m.tokens {
@@ -756,7 +759,7 @@ func init() {
 		},
 		Cases: cases,
 		Run:   run,
-		MinCounters: []string{
+		MinCounters: []string{"genesis_round_trips", "genesis_round_trip_admins_checked/renounced", "genesis_round_trip_admins_checked/handed-over", "genesis_round_trip_former_admin_refused",
 			"create_ok", "create_rejected_existing", "mint_by_admin_ok", "burn_by_admin_ok", "chadmin_by_admin_ok", "setmeta_by_admin_ok",
 			"mint_rejected_nonadmin", "burn_rejected_nonadmin", "chadmin_rejected_nonadmin", "setmeta_rejected_nonadmin",
 			"mint_rejected_nonfactory", "burn_rejected_nonfactory", "chadmin_rejected_nonfactory", "setmeta_rejected_nonfactory",
